@@ -470,6 +470,10 @@ class USBResetSequencer(Elaboratable):
                         m.d.comb += self.bus_reset.eq(1)
                         m.next = 'START_HS_DETECTION'
 
+                        # If we've been restricted to low/full speed in the meantime, we mustn't chirp.
+                        with m.If(self.low_speed_only | self.full_speed_only):
+                            m.next = 'IS_LOW_OR_FULL_SPEED'
+
 
             # SUSPEND -- our device has entered USB suspend; we'll now wait for either a
             # resume or a reset
